@@ -19,20 +19,27 @@ LEVEL_TEXT = ("Lean theorems (kernel evaluation) over mutation facts regenerated
               "original.")
 LEVEL_NOTE = ("Trusted: Lean kernel; tools/extract/mutfacts.go (syntactic go/ast analysis: name-based call graph, identifiers assigned "
               "from make/New*/Clone are fresh; types are read from declarations, not inferred) for queries_pure / copies_own_data; "
-              "tools/mutscan (go/packages type check + flow-insensitive region analysis with summaries) and the reviewed lists "
+              "tools/mutscan (go/packages type check + flow-insensitive region analysis with summaries, one flow-sensitive refinement for straight-line uses of a variable just assigned a fresh call result) and the reviewed lists "
               "roExternals / dataStructs / dataContainers of Model/MutFactsT.lean for the ..._typed theorems; harness/oracle/driver.")
 TECHNIQUE = "Lean 4 proof (decide +kernel over regenerated mutation facts, syntactic and type-checked; heap ownership model) + run-time aliasing correspondence"
 RULE = ("alignments of 1..5 rows x 1..9 columns (nucleotide, protein), every query group (writers, statistics, coordinates, copies, "
         "distances, pairwise aligner) and every copy operation followed by in-place mutations of the copy and of the original; "
         "non-trivial = at least 2 rows and 2 columns")
-PARTIAL = ["phaser.Phase and seqbag.LongestORF are in the facts theorem of the syntactic stage only (queries_pure) and are checked at run "
-           "time (inputs compared before/after): the type-checked analysis is flow-insensitive and cannot separate Phase's re-assigned "
-           "parameter `orfs` / LongestORF's `bestseq` (input row or reversed clone) from the input; everything else, the interface "
-           "queries and the pairwise aligner (pwaligner_isolated_typed) are proved over the type-checked facts as well",
+PARTIAL = ["phaser.Phase is in the facts theorem of the syntactic stage only (queries_pure) and is checked at run time (inputs compared "
+           "before/after): the type-checked analysis treats a region as everything reachable, so the NEW bag Phase fills with the "
+           "bytes of an input row (orfs = NewSeqBag; orfs.AddSequenceChar(.., orf.SequenceChar(), ..); orfs.AutoAlphabet()) is one "
+           "region with the input and the writes to the bag's own fields count as writes to the input (same reason: Sample / Rarefy "
+           "are not provable pure); seqbag.LongestORF (reversed clone) is proved over the type-checked facts through the 'fresh "
+           "window' refinement, as are all other interface queries, Sequence.Translate and the pairwise aligner "
+           "(pwaligner_isolated_typed); the oracle's model side reads the syntactic facts",
            "the ownership model assumes the shape 'new object from freshly allocated buffers' that the facts theorems "
            "`copies_own_data` (syntactically) and `copies_own_data_typed` (allocation sites, go/types) establish; slices handed out "
            "by accessors (SequenceChar) are outside the property"]
-TRUSTED = ["tools/mutscan: values of type error and strings carry no mutable reference; no unsafe / reflect / cgo writes; a store into a "
+TRUSTED = ["tools/mutscan fresh window: a variable assigned the result of a call whose summary-derived region shares memory with no "
+           "input / package-level / unknown memory holds an unshared object until a statement of the same list mentions it other "
+           "than as receiver / plain argument of a call whose summaries keep that input isolated (variables captured by closures "
+           "or address-taken, labelled statements, calls with function-literal arguments are excluded)",
+           "tools/mutscan: values of type error and strings carry no mutable reference; no unsafe / reflect / cgo writes; a store into a "
            "package-level variable through a local alias is not seen (direct stores are: typed_facts_wellformed)",
            "Model/MutFactsT.lean roExternals: the listed standard-library functions (bytes.Buffer.Write, fmt.*, bytes.*, regexp "
            "matching, io.Writer.Write) do not write through their arguments; a function parameter called inside Iterate* is "
